@@ -24,7 +24,7 @@ RULE = ("Case = 1-4 blocks from {probe (saved state absent/valid/rejected x init
         "t x init_timeout 0/2/5 x init_regular absent/sets/does nothing x initdef absent/value), Input without "
         "initdef, ValuePoll (value / UNDEF then value / async value / raising; interval below or above the "
         "timeout), InitAsync (ok/fail/never)} with on_output events along an acyclic topology (events are "
-        "emitted by every init step that changes the output), optionally a FuncBlock whose first evaluation "
+        "emitted by every init step that changes the output), optionally combinational blocks fed by constants only, optionally a FuncBlock whose first evaluation "
         "fails (with or without a block having asynchronous clean-up), 1-2 tasks waiting in wait_init() from "
         "the first instant; each case is run for up to 4 (thorough: all <=24) creation orders. "
         "Non-trivial = >=2 blocks with different init sources and (>=1 init-time event delivered or >=1 "
@@ -97,6 +97,9 @@ def cases(draw):
     case = {'blocks': blocks,
             'calc': draw(st.sampled_from([None, None, 'ok', 'fail'])),
             'slowstop': draw(st.booleans()),
+            # combinational blocks without any block on their inputs (constants only / no inputs)
+            'consts': draw(st.sampled_from([None, None, 'and', 'func', 'empty', 'chain'])),
+            'consts_first': draw(st.booleans()),
             'waiters': draw(st.integers(1, 2)),
             'permseed': draw(st.integers(0, 1000))}
     return case
@@ -330,6 +333,20 @@ def run_order(case, order):
         blocks = case['blocks']
         real = {}
         storage = harness.DeepCopyDict()
+
+        def mkconsts():
+            kind = case.get('consts')
+            if kind == 'and':
+                edzed.And('k0').connect(True, edzed.Const(1))
+            elif kind == 'func':
+                edzed.FuncBlock('k0', func=lambda a, b: a + b).connect(2, 3)
+            elif kind == 'empty':
+                edzed.FuncBlock('k0', func=lambda g: len(g)).connect(g=())
+            elif kind == 'chain':
+                edzed.Not('k1').connect('k0')
+                edzed.And('k0').connect(True)
+        if case.get('consts_first'):
+            mkconsts()
         for i in order:
             b = blocks[i]
             name = f'b{i}'
@@ -390,6 +407,8 @@ def run_order(case, order):
             edzed.FuncBlock('cb', func=calc).connect(f'b{order[0]}')
         if case['slowstop']:
             SlowStop('slowstop', stop_timeout=3)
+        if not case.get('consts_first'):
+            mkconsts()
         circuit.set_persistent_data(storage)
         t0 = loop.time()
         task = asyncio.create_task(circuit.run_forever())
@@ -407,6 +426,8 @@ def run_order(case, order):
             waits.append((k, 'ok', loop.time() - t0,
                           ['<UNDEF>' if real[i].output is UNDEF else real[i].output for i in range(len(blocks))],
                           circuit.is_ready()))
+            obs.setdefault('all_outputs', {blk.name: ('<UNDEF>' if blk.output is UNDEF else blk.output)
+                                           for blk in circuit.getblocks()})
         wtasks = [asyncio.create_task(waiter(k)) for k in range(case['waiters'])]
         await asyncio.gather(*wtasks)
         obs['waits'] = waits
@@ -502,6 +523,15 @@ def execute(case, all_orders=False):
             if abs(t - model.duration) > 1e-6:
                 res.fail('C05.duration', tag + f"wait_init() returned after {t} s, asynchronous phase should "
                          f"take {model.duration} s")
+        undef = sorted(n for n, o in obs.get('all_outputs', {}).items() if o == '<UNDEF>')
+        if undef:
+            res.fail('C05.undef_after_init', tag + f"blocks {undef} have no output after wait_init()")
+        want_consts = {'and': {'k0': True}, 'func': {'k0': 5}, 'empty': {'k0': 0},
+                       'chain': {'k0': True, 'k1': False}}.get(case.get('consts'), {})
+        for n, w in want_consts.items():
+            if obs['all_outputs'].get(n) != w:
+                res.fail('C05.outputs', tag + f"combinational block {n} outputs {obs['all_outputs'].get(n)!r}, "
+                         f"expected {w!r}")
         maxto = max([b.get('timeout', 0) for b in blocks] or [0])
         if obs['waits'][0][2] > maxto + 1e-6:
             res.fail('C05.waited_too_long', tag + f"{obs['waits'][0][2]} s > largest init_timeout {maxto}")
